@@ -23,6 +23,7 @@ func propC11() *Property {
 			{ID: "R11.1", Floor: 1, Text: "handleAuthentication, assuming len(IngressCredentials)>0: no `return nil` is reachable unless the credential-match edge (User == user && Password == password) is taken", Run: r11_1},
 			{ID: "R11.2", Floor: 2, Text: "handleAuthentication, assuming len(IngressCredentials)==0: the method reply {5,2} and the success reply {1,0} are unreachable; `return nil` is reachable only after writing {5,0}", Run: r11_2},
 			{ID: "R11.3", Floor: 2, Text: "serverServeConn: readRequest unreachable without (handleAuthentication()==nil or ClientSideAuthentication); clientServeConn: ProxyDialer.DialContext unreachable without (handleAuthentication()==nil or !ClientSideAuthentication)", Run: r11_3},
+			{ID: "R11.5", Floor: 1, Text: "the configured credential list reaches the check unchanged: nothing outside the daemon wiring assigns Auth.IngressCredentials (a listener that filters its own list can end up with none and stop asking)", Run: r11_5},
 			{ID: "R11.4", Floor: 4, Text: "pkg/cli RunClient: Auth literal has ClientSideAuthentication=true and IngressCredentials built from GetSocks5Authentication (GetUser->User, GetPassword->Password); the HTTP proxy goroutine is unreachable when credentials are configured", Run: r11_4},
 		},
 	}
@@ -738,4 +739,36 @@ func credMatchHelper(fn *ssa.Function) (int, bool) {
 		}
 	})
 	return pwIdx, good && sawTrue && pwIdx >= 0
+}
+
+
+// r11_5: whether credentials are required is decided by
+// len(IngressCredentials) > 0. The list is written once, by the code that
+// turns the configuration into a listener (pkg/cli); the listener itself and
+// everything else leave it alone. A "sanitising" pass inside socks5.New that
+// drops entries it considers unusable makes a configuration with only such
+// entries fail open (seed C11g).
+func r11_5(c *RC) {
+	p := c.P
+	ing := p.Field(s5Pkg, "Auth", "IngressCredentials")
+	if ing == nil {
+		c.Anchor("socks5.Auth.IngressCredentials")
+		return
+	}
+	n := 0
+	for _, s := range p.FieldStores(ing) {
+		if strings.HasSuffix(strings.SplitN(p.Pos(s.Pos()), ":", 2)[0], "_test.go") {
+			continue
+		}
+		n++
+		key := "credential-list-writer@" + fnName(s.Fn)
+		if relPkg(s.Fn) == "pkg/cli" {
+			c.OK(key, s.Pos(), "the daemon wiring (judged by R11.4)")
+		} else {
+			c.Bad(key, s.Pos(), "%s assigns Auth.IngressCredentials: the list that decides whether credentials are required is no longer the configured one (an emptied list means 'no authentication')", fnName(s.Fn))
+		}
+	}
+	if n == 0 {
+		c.Undecided("credential-list-writer", token.NoPos, "no assignment of Auth.IngressCredentials found at all")
+	}
 }
